@@ -15,6 +15,7 @@ import Y0.Lemmas.Ctf
 import Y0.Lemmas.CtfScm
 import Y0.Lemmas.CtfComponents
 import Y0.Lemmas.CtfSimplify
+import Y0.Lemmas.CtfFactor
 
 namespace Y0.Ctf
 open Relation Y0.MG
@@ -400,6 +401,149 @@ theorem convertOne_factorForm (g : MG Name) (v w : Var) (hloop : ¬ g.DiEdge v.n
   refine ⟨fun p hp => (hex p).2 hp, fun hself => ?_⟩
   rw [hn] at hself
   exact hloop (by simpa [hn] using (hex v.name).1 hself)
+
+/-- the accumulated ancestral set `D_* = An(Y_*)` -/
+theorem ancFold_mem (g : MG Name) (q : Event) (acc anc : List Var) (h : q.foldlM (ancStep g) acc = .ok anc)
+    (w : Var) : w ∈ anc ↔ w ∈ acc ∨ ∃ p ∈ q, ∃ A, ctfAncestors g p.1 = .ok A ∧ w ∈ A := by
+  induction q generalizing acc with
+  | nil =>
+    simp only [List.foldlM_nil, pure, Except.pure, Except.ok.injEq] at h
+    subst h; simp
+  | cons p q ih =>
+    simp only [List.foldlM_cons, bind, Except.bind] at h
+    cases hA : ctfAncestors g p.1 with
+    | error e => simp only [ancStep, bind, Except.bind, hA] at h; cases h
+    | ok A =>
+      simp only [ancStep, bind, Except.bind, hA, pure, Except.pure] at h
+      rw [ih _ h]
+      simp only [unionVars, List.mem_append, List.mem_filter, Bool.not_eq_eq_eq_not, Bool.not_true, List.mem_cons,
+        exists_eq_or_imp]
+      constructor
+      · rintro ((hw | ⟨hw, _⟩) | ⟨p', hp', A', hA', hw⟩)
+        · exact Or.inl hw
+        · exact Or.inr (Or.inl ⟨A, hA, hw⟩)
+        · exact Or.inr (Or.inr ⟨p', hp', A', hA', hw⟩)
+      · rintro (hw | ⟨A', hA', hw⟩ | ⟨p', hp', A', hA', hw⟩)
+        · exact Or.inl (Or.inl hw)
+        · rw [hA] at hA'
+          simp only [Except.ok.injEq] at hA'
+          subst hA'
+          by_cases hacc : w ∈ acc
+          · exact Or.inl (Or.inl hacc)
+          · exact Or.inl (Or.inr ⟨hw, by simpa [mem'] using hacc⟩)
+        · exact Or.inr ⟨p', hp', A', hA', hw⟩
+
+/-- **shape of the factorisation (Eq. 11-15).**  `do_counterfactual_factor_factorization` returns
+`Σ_{V(D_*) ∖ V(Y_*)} Π_j P(c_j)` where `D_* = An(Y_*)` is the union of the counterfactual ancestors (Def. 2.1) of the
+query variables, `C_*` consists of every member of `D_*` in ctf-factor form `W_{pa_W}` (Def. 3.4), and the factors `c_j`
+partition `C_*` by the districts (c-components) of the subgraph induced by the vertices of `C_*`; the returned event is
+the query in ctf-factor form. -/
+theorem factorisation_shape (g : MG Name) (q : Event) (e : Expr) (ev : Event)
+    (h : factorize g q = .ok (e, ev)) :
+    ∃ (D C : List Var) (factors : List (List Var)),
+      (∀ w, w ∈ D ↔ ∃ p ∈ q, ∃ A, ctfAncestors g p.1 = .ok A ∧ w ∈ A) ∧
+      (∀ c, c ∈ C ↔ ∃ w ∈ D, convertOne g w = .ok c) ∧
+      (∀ c, (∃ f ∈ factors, c ∈ f) ↔ c ∈ C) ∧
+      (∀ f ∈ factors, ∀ a ∈ f, ∀ b, b ∈ f ↔
+        b ∈ C ∧ (g.subgraph (dedup' (C.map (·.name)))).SameDistrict a.name b.name) ∧
+      e = sumSafe (productSafe (factors.map probOf))
+            ((dedup' (C.map (·.name))).filter (fun n => decide (n ∉ dedup' (q.map (·.1.name))))) ∧
+      convertEvent g q = .ok ev ∧ q ≠ [] := by
+  unfold factorize at h
+  split at h
+  · simp [bind, Except.bind, throw, throwThe, MonadExceptOf.throw] at h
+  rename_i hq
+  simp only [bind, Except.bind] at h
+  cases hev : convertEvent g q with
+  | error err => rw [hev] at h; cases h
+  | ok ev' =>
+    rw [hev] at h
+    simp only at h
+    cases hanc : q.foldlM (ancStep g) [] with
+    | error err => rw [hanc] at h; cases h
+    | ok anc =>
+      rw [hanc] at h
+      simp only at h
+      cases hconv : anc.mapM (convertOne g) with
+      | error err => rw [hconv] at h; cases h
+      | ok cs =>
+        rw [hconv] at h
+        simp only at h
+        cases hfac : ctfFactors (g.subgraph (dedup' ((dedup' cs).map (·.name)))) (dedup' cs) with
+        | error err => rw [hfac] at h; cases h
+        | ok factors =>
+          rw [hfac] at h
+          simp only [pure, Except.pure, Except.ok.injEq, Prod.mk.injEq] at h
+          obtain ⟨he, hev'⟩ := h
+          subst hev'
+          refine ⟨anc, dedup' cs, factors, fun w => ?_, fun c => ?_, ?_, ?_, he.symm, rfl, ?_⟩
+          · rw [ancFold_mem g q [] anc hanc w]; simp
+          · rw [mem_dedup', mapM_ok_mem _ _ _ hconv]
+          · -- the factors cover exactly `C_*`
+            unfold ctfFactors at hfac
+            simp only [bind, Except.bind] at hfac
+            cases hform : isCtfFactorForm (g.subgraph (dedup' ((dedup' cs).map (·.name)))) (dedup' (dedup' cs)) with
+            | error err => rw [hform] at hfac; cases hfac
+            | ok b =>
+              rw [hform] at hfac
+              cases b with
+              | false => simp [throw, throwThe, MonadExceptOf.throw] at hfac
+              | true =>
+                simp only [Bool.not_true, Bool.false_eq_true, ↓reduceIte] at hfac
+                intro c
+                rw [(groupByDistrict_spec _ _ _ _ hfac).1 c, mem_dedup']
+          · unfold ctfFactors at hfac
+            simp only [bind, Except.bind] at hfac
+            cases hform : isCtfFactorForm (g.subgraph (dedup' ((dedup' cs).map (·.name)))) (dedup' (dedup' cs)) with
+            | error err => rw [hform] at hfac; cases hfac
+            | ok b =>
+              rw [hform] at hfac
+              cases b with
+              | false => simp [throw, throwThe, MonadExceptOf.throw] at hfac
+              | true =>
+                simp only [Bool.not_true, Bool.false_eq_true, ↓reduceIte] at hfac
+                obtain ⟨hcover, hgroup⟩ := groupByDistrict_spec _ _ _ _ hfac
+                intro f hf a ha b
+                rw [hgroup f hf a ha b, mem_dedup']
+                have haC : a ∈ dedup' cs := by
+                  have := (hcover a).1 ⟨f, hf, ha⟩
+                  rwa [mem_dedup'] at this
+                have hwf := wf_subgraph g (dedup' ((dedup' cs).map (·.name)))
+                have hnode : ∀ x ∈ dedup' cs, x.name ∈ (g.subgraph (dedup' ((dedup' cs).map (·.name)))).nodes := by
+                  intro x hx
+                  rw [mem_nodes_subgraph, mem_dedup']
+                  exact List.mem_map.2 ⟨x, hx, rfl⟩
+                constructor
+                · rintro ⟨hbC, hd⟩
+                  refine ⟨hbC, ?_⟩
+                  obtain ⟨da, hda⟩ := getDistrict_total _ hwf a.name (hnode a haC)
+                  obtain ⟨db, hdb⟩ := getDistrict_total _ hwf b.name (hnode b hbC)
+                  rw [hda, hdb] at hd
+                  simp only [Except.ok.injEq] at hd
+                  exact (getDistrict_eq_iff _ hwf a.name b.name da db hda hdb).1 hd.symm
+                · rintro ⟨hbC, hs⟩
+                  refine ⟨hbC, ?_⟩
+                  obtain ⟨da, hda⟩ := getDistrict_total _ hwf a.name (hnode a haC)
+                  obtain ⟨db, hdb⟩ := getDistrict_total _ hwf b.name (hnode b hbC)
+                  rw [hda, hdb, (getDistrict_eq_iff _ hwf a.name b.name da db hda hdb).2 hs]
+          · intro h0; rw [h0] at hq; simp at hq
+
+/-! ### value of the factorisation
+
+-- OPEN: factorisation_den : factorize g q = .ok (e, ev) → Compatible M g → ν.Distinct →
+--         (value of  e  under the reading "a -N subscript bound by the enclosing Sum denotes the bound value, every other
+--          subscript its literal value; a factor variable takes the bound value of its vertex or the value `ev` gives it")
+--         = probEventOpt M ν q
+-- This is FALSE for the model (hence for the code): the returned expression identifies counterfactual variables by
+-- their graph vertex and has only two value symbols per vertex, so it cannot express
+--   * a query that needs one vertex in two worlds  (P(Y = y, Y_x = y') -> both ancestors become `Y @ -X`),
+--   * a literal subscript `x` when X is also summed out (captured by the summation index),
+--   * an added parent subscript `-P` when P is an outcome with value `+P` or `None`.
+-- These are the open findings `factorisation-value:{multi-world, literal-bound, outcome-parent-value}`; on all sampled
+-- queries outside these three syntactic classes the exact functional-SCM oracle found the value equal to P(query).
+-- What is proved: the shape (`factorisation_shape`), i.e. that D_*, the ctf-factor forms and the grouping by
+-- c-components are those of Eq. 11-15.  The counterfactual (split) lemma needed for the value (ctf-factors over different
+-- districts depend on disjoint noise) is not mechanised. -/
 
 /-! ## 4. ancestral components (Def. 4.2) -/
 
